@@ -218,6 +218,17 @@ pub fn gen(tier: Tier, rng: &mut Rng) -> Vec<Sx> {
         let s: String = (0..k).map(|_| *rng.pick(&SMALL)).collect::<Vec<&str>>().concat();
         for e in 10..=13 { v.push(mk(e, &s)); }
     }
+    // 4c'. the same three parsers on EVERY combination of a few operands in their documented shapes: blank and empty operands, nested
+    //      parentheses, keywords inside quotes, multi-byte characters (an operand list that is empty after trimming is the boundary case)
+    const OPND: [&str; 7] = ["", " ", "A", "(B OR C)", "\"x OR y\"", "é", "f(a, b)"];
+    for a in OPND { for b in OPND {
+        v.push(mk(11, &format!("({} OR {})", a, b))); v.push(mk(11, &format!("{} OR {}", a, b)));
+        v.push(mk(12, &format!("g WHERE {} AND {}", a, b))); v.push(mk(13, &format!("g WHERE ({} WHERE {})", a, b)));
+        for c in OPND { v.push(mk(11, &format!("({} OR {} OR {})", a, b, c))); v.push(mk(12, &format!("{} WHERE {} AND ({} WHERE x) AND {}", c, a, b, c))); }
+    } }
+    for f in ["count", "SUM", "Avg", "min", "max", "first", "last", "", "median", "é"] { for var in ["?x", "", " ", "?é", "x", "?"] { for tail in [" WHERE p(?x)", " WHERE p(?x) AND ?x > 1", " WHERE ", "", " WHERE  AND "] {
+        v.push(mk(10, &format!("{}({}){}", f, var, tail))); v.push(mk(10, &format!(" {} ( {} ) {}", f, var, tail)));
+    } } }
     // 4d. integer extremes in the evaluator (entry 1): every pair of {i64::MIN, i64::MIN + 1, i64::MAX, -1, 0, 1, 2, -2} under every operator, as
     //     literals and as the value of a parenthesised difference (an i64 quotient or remainder that does not exist must be an error or a float, not a panic)
     const EXT: [&str; 10] = ["-9223372036854775808", "-9223372036854775807", "9223372036854775807", "-1", "0", "1", "2", "-2",
